@@ -219,9 +219,44 @@ def phase_tests(mfile, outdir, jobs):
     print("tests phase done")
 
 
-def phase_checks(outdir, ids):
-    wt = os.path.join(outdir, "wtc")
-    mk_worktree(wt)
+OP_ORDER = {"cmp": 0, "negate": 1, "bool": 2, "not": 3, "return": 4, "arith": 5, "delete": 6, "const": 7}
+
+
+def cpu_base(wt):
+    try:
+        return int(wt[-1]) * int(os.environ.get("MUT_JOBS", "5"))
+    except ValueError:
+        return 0
+
+
+def check_one(args):
+    m, wt, ids, cpath = args
+    apply_mutant(m, wt)
+    killed = None
+    tried = []
+    try:
+        for cid in ids:
+            p = subprocess.run(["timeout", "1800", "/verif/run", cid, "--tier", "quick", "--no-evidence", "--jobs", os.environ.get("MUT_JOBS", "5")],
+                               stdout=subprocess.PIPE, stderr=subprocess.STDOUT, text=True, env=dict(os.environ, VERIF_REPO=wt, VERIF_CPU_BASE=str(cpu_base(wt))))
+            tried.append((cid, p.returncode))
+            if p.returncode == 1 and "VIOLATION" in p.stdout:
+                killed = cid
+                m["first_violation"] = [l for l in p.stdout.splitlines() if "violation oracle" in l][:1]
+                break
+            if p.returncode not in (0, 1):
+                killed = cid + ":harness-error"
+                m["first_violation"] = p.stdout.strip().splitlines()[-3:]
+                break
+    finally:
+        restore(m, wt)
+    m["killed_by"] = killed
+    m["tried"] = tried
+    return m
+
+
+def phase_checks(outdir, ids, par=3):
+    import concurrent.futures as cf
+    import queue
     surv = []
     for fn in sorted(os.listdir(outdir)):
         if fn.startswith("tests.") and fn.endswith(".jsonl"):
@@ -229,41 +264,34 @@ def phase_checks(outdir, ids):
                 d = json.loads(l)
                 if d["status"] == "survives-tests":
                     surv.append(d)
-    surv.sort(key=lambda d: (d["file"], d["start"], d["new"]))
+    surv.sort(key=lambda d: (OP_ORDER.get(d["op"], 9), d["file"], d["start"], d["new"]))
     done = set()
     cpath = os.path.join(outdir, "checks.jsonl")
     if os.path.exists(cpath):
         for l in open(cpath):
             d = json.loads(l)
             done.add((d["file"], d["start"], d["end"], d["new"]))
-    print("test survivors", len(surv), "already checked", len(done), flush=True)
+    todo = [m for m in surv if (m["file"], m["start"], m["end"], m["new"]) not in done]
+    print("test survivors", len(surv), "already checked", len(done), "todo", len(todo), flush=True)
+    wts = queue.Queue()
+    for k in range(par):
+        wts.put(mk_worktree(os.path.join(outdir, "wtc%d" % k)))
+
+    def job(m):
+        wt = wts.get()
+        try:
+            return check_one((m, wt, ids, cpath))
+        finally:
+            wts.put(wt)
     try:
-        for m in surv:
-            if (m["file"], m["start"], m["end"], m["new"]) in done:
-                continue
-            apply_mutant(m, wt)
-            killed = None
-            tried = []
-            for cid in ids:
-                p = subprocess.run(["timeout", "1500", "/verif/run", cid, "--tier", "quick", "--no-evidence", "--jobs", os.environ.get("MUT_JOBS", "8")], stdout=subprocess.PIPE, stderr=subprocess.STDOUT, text=True,
-                                   env=dict(os.environ, VERIF_REPO=wt))
-                tried.append((cid, p.returncode))
-                if p.returncode == 1 and "VIOLATION" in p.stdout:
-                    killed = cid
-                    m["first_violation"] = [l for l in p.stdout.splitlines() if "violation oracle" in l][:1]
-                    break
-                if p.returncode not in (0, 1):
-                    killed = cid + ":harness-error"
-                    m["first_violation"] = p.stdout.strip().splitlines()[-3:]
-                    break
-            restore(m, wt)
-            m["killed_by"] = killed
-            m["tried"] = tried
-            with open(cpath, "a") as f:
-                f.write(json.dumps(m) + "\n")
-            print("%s:%d %s %r -> %r : %s" % (m["file"], m["line"], m["op"], m["old"][:30], m["new"][:30], killed or "SURVIVES"), flush=True)
+        with cf.ThreadPoolExecutor(par) as ex:
+            for m in ex.map(job, todo):
+                with open(cpath, "a") as f:
+                    f.write(json.dumps(m) + "\n")
+                print("%s:%d %s %r -> %r : %s" % (m["file"], m["line"], m["op"], m["old"][:30], m["new"][:30], m["killed_by"] or "SURVIVES"), flush=True)
     finally:
-        rm_worktree(wt)
+        for k in range(par):
+            rm_worktree(os.path.join(outdir, "wtc%d" % k))
         subprocess.call("rm -f /verif/replays/*.json", shell=True)
 
 
@@ -276,4 +304,4 @@ if __name__ == "__main__":
     elif cmd == "tests":
         phase_tests(sys.argv[2], sys.argv[3], int(sys.argv[4]) if len(sys.argv) > 4 else 4)
     elif cmd == "checks":
-        phase_checks(sys.argv[2], sys.argv[3].split(","))
+        phase_checks(sys.argv[2], sys.argv[3].split(","), int(sys.argv[4]) if len(sys.argv) > 4 else 3)
